@@ -23,8 +23,9 @@ import warnings
 
 import numpy as np
 
-ELEMS = {"f32": (np.float32, 1), "u8": (np.uint8, 2), "i32": (np.int32, 6), "i64": (np.int64, 7),
-         "bool": (np.bool_, 9), "f64": (np.float64, 11)}
+ELEMS = {"f32": (np.float32, 1), "u8": (np.uint8, 2), "i8": (np.int8, 3), "u16": (np.uint16, 4), "i16": (np.int16, 5),
+         "i32": (np.int32, 6), "i64": (np.int64, 7), "bool": (np.bool_, 9), "f16": (np.float16, 10),
+         "f64": (np.float64, 11), "u32": (np.uint32, 12), "u64": (np.uint64, 13)}
 SYM = {"N": 2, "M": 3, "K": 1}
 SCALAR = {"e": "f32", "d": []}
 
@@ -65,7 +66,7 @@ def feed_for(ty, rng: random.Random):
     n = int(np.prod(shape)) if shape else 1
     if ty["e"] == "bool":
         vals = [rng.random() < 0.5 for _ in range(n)]
-    elif ty["e"] == "u8":
+    elif ty["e"] in ("u8", "u16", "u32", "u64"):
         vals = [rng.randrange(0, 4) for _ in range(n)]
     else:
         vals = [rng.randrange(-3, 4) for _ in range(n)]
@@ -102,8 +103,10 @@ class _Gen:
                 nd = self.new({"k": "const", "v": float(rng.randrange(-2, 3))})
             elif r < 0.55 and vis_sc:
                 nd = self.new({"k": rng.choice(["add", "mul"]), "a": rng.choice(vis_sc), "b": rng.choice(vis_sc)})
-            elif r < 0.62 and vis_sc:
+            elif r < 0.60 and vis_sc:
                 nd = self.new({"k": "neg", "a": rng.choice(vis_sc)})
+            elif r < 0.63 and vis_sc:
+                nd = self.new({"k": "bin", "a": rng.choice(vis_sc)})  # ai.onnx.ml Binarizer: a second opset domain
             elif r < 0.82 and vis_sc and depth < self.max_depth:
                 a, b = rng.choice(vis_sc), rng.choice(vis_sc)
                 sz = rng.randrange(1, 4)
@@ -139,7 +142,7 @@ class _Gen:
 def gen_program(rng: random.Random, n_args=None, size=None, max_depth=3):
     """A random program. Arguments are created first, interleaved with a few other top-level values."""
     g = _Gen(rng, max_depth)
-    n_args = rng.randrange(1, 7) if n_args is None else n_args
+    n_args = (rng.randrange(1, 7) if rng.random() < 0.9 else rng.randrange(7, 11)) if n_args is None else n_args
     size = rng.randrange(1, 9) if size is None else size
     top = []
     for _ in range(n_args):
@@ -221,7 +224,7 @@ def free_args(prog, out_ids):
             s = {i}
         elif k in ("const", "init", "junk"):
             s = set()
-        elif k in ("lift", "neg"):
+        elif k in ("lift", "neg", "bin"):
             s = set(of(nd["a"]))
         elif k in ("add", "mul"):
             s = of(nd["a"]) | of(nd["b"])
@@ -325,6 +328,10 @@ def realize(prog, op=None):
                 env[i] = op.mul(env[nd["a"]], env[nd["b"]])
             elif k == "neg":
                 env[i] = op.neg(env[nd["a"]])
+            elif k == "bin":
+                import spox.opset.ai.onnx.ml.v3 as ml
+
+                env[i] = ml.binarizer(env[nd["a"]], threshold=0.5)
             elif k == "if":
                 (env[i],) = op.if_(
                     op.less(env[nd["a"]], env[nd["b"]]),
@@ -372,6 +379,8 @@ def evaluate(prog, feeds, out_ids):
             v = np.float32(ev(nd["a"], env) * ev(nd["b"], env))
         elif k == "neg":
             v = np.float32(-ev(nd["a"], env))
+        elif k == "bin":
+            v = np.float32(1.0 if ev(nd["a"], env) > 0.5 else 0.0)
         elif k == "if":
             blk = nd["then"] if ev(nd["a"], env) < ev(nd["b"], env) else nd["else"]
             v = ev(blk["res"][0], dict_without(env, blk))
